@@ -44,6 +44,8 @@ def xact(a, p=None):
         return '(XFork %d)' % a[1]
     if k == 'T':
         return '(XSetTempo %d %s)' % (a[1], K.q(a[2]))
+    if k == 'sb':
+        return '(XSetBeats %d %s)' % (a[1], K.q(a[2]))
     if k == 'seed':
         return '(XSeed %s)' % cz(seed_code(a[1]))
     if k == 'D':
@@ -200,7 +202,7 @@ def gen_xprog(rng, profile):
                 f = pick(nflows, g, fgrp)
                 if f is not None:
                     body.append(['fset', f, rng.randint(0, 99)])
-            elif r < 0.975:
+            elif r < 0.965:
                 cands = [t for t in range(1, nb) if (free or (grp[t] == g and t != j))]
                 if cands:
                     t = rng.choice(cands)
@@ -208,11 +210,18 @@ def gen_xprog(rng, profile):
                     if rng.random() < 0.5:
                         body.append(['Y', delta()])
                         body.append(['resume', t])
-            elif r < 0.99:
+            elif r < 0.995:
                 alone = len({grp[t] for t in range(nb) if home[t] == h}) == 1
                 if ntempo and (free or (h != 'S' and alone)):
                     i = rng.randrange(ntempo) if free else h[1]
-                    body.append(['T', i, rng.choice(TEMPI)])
+                    if rng.random() < 0.5:
+                        body.append(['T', i, rng.choice(TEMPI)])
+                    else:
+                        # the beats setter, mostly from a routine of that clock inside its own wake-up, followed by a yield.
+                        # In the RT profiles only a rewind to 0 (no pending task is moved before the current logical time)
+                        body.append(['sb', i, rng.choice(['0', '1/2', '1', '2', '-1', '1/4']) if free else '0'])
+                        if rng.random() < 0.7:
+                            body.append(['Y', delta()])
             elif rng.random() < 0.5:
                 body.append(['R'])
             else:
@@ -257,6 +266,12 @@ SEEDS_PROG = {'tempos': [], 'bodies': [[['seed', ['s', 'seed']], ['D', 0], ['D',
 STORM_PROG = {'tempos': [], 'bodies': [[['seed', 0]] + [['F', 1]] * 12 + [['Y', '0'], ['D', 10], ['D', 0]],
                                        [['D', 0], ['S', '0', [['m', 7]]], ['Y', '0'], ['D', 13], ['D', 1], ['Y', '0'], ['S', None, [['m', 8]]]]],
               'nconds': 0, 'nflows': 0, 'mseed': 0, 'tail': '0', 'shared': [], 'order_clocks': ['S']}
+# a routine on a TempoClock rewinds the clock's beats inside its own wake-up and goes on yielding: the next wake-up is counted
+# from the beat it was AWAKEN at in both modes; a second routine of that clock is pending meanwhile
+SETBEATS_PROG = {'tempos': ['4'], 'bodies': [[['P', 1, ['T', 0]], ['P', 2, ['T', 0]]],
+                                            [['Y', '1/4'], ['Y', '1/4'], ['sb', 0, '0'], ['Y', '1/4'], ['S', '0', [['m', 1]]], ['Y', '1/2'], ['S', '0', [['m', 2]]]],
+                                            [['Y', '3/4'], ['S', '0', [['m', 3]]], ['Y', '1/4'], ['S', '0', [['m', 4]]]]],
+                 'nconds': 0, 'nflows': 0, 'mseed': 1, 'tail': '0', 'shared': [], 'order_clocks': [['T', 0]]}
 FIXED = [
     DUP_PROG,
     # the example of the documentation guide, inheritance and re-seeding, pause/resume, flow variable across clocks
@@ -268,6 +283,7 @@ FIXED = [
     SHARED_PROG,
     SEEDS_PROG,
     STORM_PROG,
+    SETBEATS_PROG,
 ]
 
 
@@ -456,11 +472,17 @@ def gen_quant_prog(rng):
                     body.append(['PQ', rich, ['T', i], q_, ph])
                 elif t < 0.8 and nt > 1:
                     j = (i + 1) % nt
-                    body.append(['PQ', idx[j][2], ['T', j], q_, ph])
+                    # quant 0 only: a grid on ANOTHER clock depends on that clock's meter, which its own routines change
+                    body.append(['PQ', idx[j][2], ['T', j], '0', ph])
                 else:
                     body.append(['PQ', sleaf, 'S', q_, ph])
-            elif r < 0.92:
+            elif r < 0.91:
                 body.append(['CP', rich, i, rng.choice(['0', '1', '2', '4'])])
+            elif r < 0.94:
+                if nt == 1:     # with a second clock playing onto this one the target beat would depend on which thread ran first
+                    body += [['sb', i, rng.choice(['0', '0', '4', '1/2'])], ['cb', i], ['nb', i]]
+                else:
+                    body.append(['nb', i])
             elif r < 0.97:
                 if rng.random() < 0.5:
                     body.append(['sch', rng.choice([['T', i], 'S']), rng.choice(['0', '1/4', '1/2', '1'])])
@@ -670,7 +692,7 @@ def correspond(ctx):
     if os.path.exists(corpus):
         nrt_cases += json.load(open(corpus))
     nrt_cases += [gen_xprog(rng, 'nrt') for _ in range(ctx.n(600, 3000))]
-    rt_cases = [SHARED_PROG, SEEDS_PROG, STORM_PROG] + [gen_xprog(rng, 'single' if i % 2 == 0 else 'groups') for i in range(ctx.n(150, 900))]
+    rt_cases = [SHARED_PROG, SEEDS_PROG, STORM_PROG, SETBEATS_PROG] + [gen_xprog(rng, 'single' if i % 2 == 0 else 'groups') for i in range(ctx.n(150, 900))]
     cases = nrt_cases + rt_cases
     first_rt = len(nrt_cases)
 
@@ -793,7 +815,7 @@ def correspond(ctx):
             continue
         for n_, code in enumerate(cs):
             p = rt_cases[ridx[base + n_]]
-            has_tempo = any(a_[0] == 'T' for b_ in p['bodies'] for a_ in b_)
+            has_tempo = any(a_[0] in ('T', 'sb') for b_ in p['bodies'] for a_ in b_)
             if code == 0 or (code == 3 and has_tempo):
                 continue
             what = {1: 'the recorded order of wake-ups is not an execution of the RT model', 2: 'events differ from the model replaying the recorded order',
@@ -824,6 +846,8 @@ def correspond(ctx):
 
     # (d) the quantisation API of TempoClock (logged values; no model)
     quant_part(ctx, c)
+    # concrete failing inputs (the property itself fails on the real library) before model disagreements
+    c.failures.sort(key=lambda f: not f.found_input)
 
     c.rule = ('script programs (nested routines on SystemClock/TempoClocks, tempo changes, pause/resume, Condition wait/signal, FlowVar, rand_seed and draws '
               'through the builtin random functions, bundle sends) compiled to real generator functions; (a) two fresh NRT processes: scores byte-identical, '
